@@ -51,7 +51,9 @@ def mentions_param(t):
     return any(mentions_param(x) for x in ([t[c] for c in ("e", "key", "val") if c in t] + list(t.get("args", []))))
 
 
-SUPPORT = "#[typeshare]\npub struct User { pub u: u32 }\n#[typeshare]\npub struct Gen<X> { pub g: X }\n"
+SUPPORT = ("#[typeshare]\npub struct User { pub u: u32 }\n#[typeshare]\npub struct Gen<X> { pub g: X }\n"
+           '#[typeshare]\n#[serde(rename = "RenDto")]\npub struct Ren { pub r: u32 }\n')
+RENAMES = {"Ren": "RenDto"}
 
 
 def source(tree, default_attr=None, positions=("field", "vfield", "payload", "alias")):
@@ -78,7 +80,7 @@ def strip_opt(ty, optional):
     return ty["e"] if optional and ty.get("k") == "opt" else ty
 
 
-def observations(lang, obs, prefix, positions):
+def observations(lang, obs, prefix, positions, cname="base"):
     """-> {pos: (optional|None, ty)} from one output file"""
     out = {}
     names = [prefix + "Host", "Host"]
@@ -99,11 +101,15 @@ def observations(lang, obs, prefix, positions):
                 ty = vs[0]["ty"]
                 if lang == "go" and ty.get("k") == "opt":
                     opt = True                      # a pointer payload is Go's optional idiom
+                if lang == "go" and cname == "lang_options" and ty.get("k") == "seq":
+                    out["payload"] = "ambiguous"    # no_pointer_slice: a slice payload is nil-able as it stands; no marker to observe
+                    vs = []
                 if lang == "python" and vs[0].get("nullable"):
                     opt = True                      # Optional[..] payload: nullable is the marker (payloads have no default)
                 if lang != "typescript":
                     ty = strip_opt(ty, opt)
-                out["payload"] = (opt, ty)
+                if vs:
+                    out["payload"] = (opt, ty)
         if "vfield" in positions:
             ms = observe.struct_variant_members(lang, obs, [prefix + "HostE", "HostE"], "Sv", "Sv")
             if ms:
@@ -132,6 +138,9 @@ CONFIGS = [
     ("mapped", "", {"User": "MappedT"}, {l: {"type_mappings": {"User": "MappedT"}} for l in common.LANGS}),
     ("prefixed", "Pre", {}, {"swift": {"prefix": "Pre"}, "kotlin": {"prefix": "Pre"}}),
     ("prefixed_mapped", "Pre", {"User": "MappedT"}, {l: {"prefix": "Pre", "type_mappings": {"User": "MappedT"}} for l in ("swift", "kotlin")}),
+    ("lang_options", "", {}, {"go": {"no_pointer_slice": True, "uppercase_acronyms": ["ID", "URL"]},
+                             "swift": {"default_decorators": ["Sendable"], "default_generic_constraints": ["Sendable"], "codablevoid_constraints": ["Equatable"]},
+                             }),
     ("mapped_container", "", {}, {l: {"type_mappings": {"Vec<u8>": n}} for l, n in (("typescript", "Uint8Array"), ("go", "Blob"), ("python", "bytes"))}),
 ]
 VECU8 = {"typescript": "Uint8Array", "go": "Blob", "python": "bytes"}
@@ -144,7 +153,7 @@ def run_trees(chk, cases, configs=("base",), positions=("field", "vfield", "payl
     for cname, prefix, mapping, cfgs in CONFIGS:
         if cname not in configs:
             continue
-        langs = ["swift", "kotlin"] if cname.startswith("prefixed") else ["typescript", "go", "python"] if cname == "mapped_container" else common.LANGS
+        langs = ["swift", "kotlin"] if cname.startswith("prefixed") else ["go", "swift"] if cname == "lang_options" else ["typescript", "go", "python"] if cname == "mapped_container" else common.LANGS
         results = observe.generate(srcs, langs=langs, cfgs=cfgs)
         for ci, ((tree, da, bare), per, src) in enumerate(zip(cases, results, srcs)):
             for lang in langs:
@@ -162,7 +171,7 @@ def run_trees(chk, cases, configs=("base",), positions=("field", "vfield", "payl
                         continue
                     raise ToolError(f"type case rejected by the parser: {r['errors']}\n{src}")
                 pfx = prefix if lang in ("swift", "kotlin") else ""
-                obs = observations(lang, r["obs"], pfx, positions)
+                obs = observations(lang, r["obs"], pfx, positions, cname)
                 al = aliases_of(r["obs"])
                 for pos in positions:
                     if obs.get(pos) == "ambiguous":
@@ -174,7 +183,8 @@ def run_trees(chk, cases, configs=("base",), positions=("field", "vfield", "payl
                     opt, ty = obs[pos]
                     events.append({"lang": lang, "pos": pos, "rust": tree, "default": bool(bare) and pos in ("field", "vfield"),
                                    "optional": bool(opt), "ty": ty, "prefix": pfx, "mapping": mapping, "aliases": al,
-                                   "vecu8": VECU8[lang] if cname == "mapped_container" else ""})
+                                   "vecu8": VECU8[lang] if cname == "mapped_container" else "",
+                                   "noptr": cname == "lang_options" and lang == "go", "renames": RENAMES})
                     meta.append((lang, cname, pos, tree, da, src, None, ci))
     return events, meta
 
@@ -206,6 +216,21 @@ def collapse(a):
         return dict(a, key=collapse(a["key"]), val=collapse(a["val"]))
     if k == "user":
         return dict(a, args=[collapse(x) for x in a.get("args", [])])
+    return a
+
+
+def slice_opt(a):
+    """mirror of TypeExpr!SliceOpt (Go no_pointer_slice: an Option directly around a sequence is the slice itself)"""
+    k = a.get("k")
+    if k in ("opt", "undef"):
+        x = slice_opt(a["e"])
+        return x if x.get("k") == "seq" else {"k": "opt", "e": x}
+    if k == "seq":
+        return dict(a, e=slice_opt(a["e"]))
+    if k == "map":
+        return dict(a, key=slice_opt(a["key"]), val=slice_opt(a["val"]))
+    if k == "user":
+        return dict(a, args=[slice_opt(x) for x in a.get("args", [])])
     return a
 
 
